@@ -80,6 +80,12 @@ def cases(tier):
     fn = ("function f input Real a; input Real b; output Real r; protected Real t; algorithm t := a + b; t := t * 2; r := t - a; end f; "
           "model M Real x; Real y; equation y = f(x, 3); x = 0; end M;")
     out.append((fn, {"x": 1.5, "y": 0.0}, [-((1.5 + 3) * 2 - 1.5)], "user function"))
+    # user functions may carry names the casadi module uses for functions of its own: the user's algorithm is what is called
+    for uname in ("times", "plus", "transform", "solve"):
+        out.append((fn.replace("function f ", "function %s " % uname).replace("end f;", "end %s;" % uname).replace("f(x, 3)", "%s(x, 3)" % uname),
+                    {"x": 1.5, "y": 0.0}, [-((1.5 + 3) * 2 - 1.5)], "user function named like a CasADi function (%s)" % uname))
+    f1 = ("function transform input Real a; output Real r; algorithm r := 3 * a + 1; end transform; model M Real x; Real y; equation y = transform(x); x = 0; end M;")
+    out.append((f1, {"x": 2.0, "y": 0.0}, [-7.0], "one-argument user function named like a CasADi function"))
     # for-statement in a function whose body statements depend on each other: iteration by iteration, statement by statement
     fs = ("function g input Real x; output Real p; protected Real s; algorithm s := 0; p := 1; for i in 1:3 loop s := s + x; p := p * s; end for; end g; "
           "model M Real x; Real y; equation y = g(x); x = 0; end M;")
@@ -144,7 +150,7 @@ def main():
                 break
     if payload.get("mode") == "bounded":
         print(json.dumps({"performed": True, "cases": n, "distinct_nontrivial": n, "failures": failures,
-                          "rule": "one real model per operator (+ - * / ^, relations incl. <>, not/and/or, min/max/abs, elementary functions) at several points, if-expressions and if-equations with 3 conditions evaluated where 0..3 of them hold, for-loops over stepped / descending ranges, element-wise operators, indexing, slices, a user function with an algorithm section, for-statements whose body statements depend on each other, if-statements, discarded function outputs, for-equations over several indexed arrays, der() as independent input, der() of expressions over vector states with and without function inlining; the first residual rows are compared with a Python reference",
+                          "rule": "one real model per operator (+ - * / ^, relations incl. <>, not/and/or, min/max/abs, elementary functions) at several points, if-expressions and if-equations with 3 conditions evaluated where 0..3 of them hold, for-loops over stepped / descending ranges, element-wise operators, indexing, slices, a user function with an algorithm section (also under names the casadi module uses itself), for-statements whose body statements depend on each other, if-statements, discarded function outputs, for-equations over several indexed arrays, der() as independent input, der() of expressions over vector states with and without function inlining; the first residual rows are compared with a Python reference",
                           "bound": "%d model/point pairs" % n}))
     else:
         f = failures[0] if failures else None
